@@ -25,7 +25,7 @@ def entries(prog):
 
 G = QG + "query_grammar::"
 # (function, class, kind) -> (max count, reason)
-PANIC_TABLE = {
+PANIC_TABLE_ = {
     ("tantivy::core::json_utils::convert_to_fast_value_and_append_to_json_term", "P1", "assert_failed"): (1, "assert_eq on the term's type code: the parser only calls it with a JSON term it just built (Term::from_field_json_path)"),
     ("tantivy::core::json_utils::convert_to_fast_value_and_append_to_json_term", "P2", "Option::expect"): (1, "same precondition: the term is a JSON term with a path"),
     (QP + "QueryParser::build_query_from_user_input_ast", "P3", "swap_remove"): (1, "guarded by `!err.is_empty()`"),
@@ -264,7 +264,8 @@ def run(rep, prog, tier):
     rep.floor("C16-R1", "parser entry points", len(ents), 5)
     scope = prog.reachable_bodies(ents, scope=in_scope_fn(prog))
     rep.floor("C16-R1", "parser bodies in scope", len(scope), 250)
-    inv = panics.inventory(prog, scope)
+    inv = panics.fold_closures(panics.inventory(prog, scope))
+    PANIC_TABLE = panics.fold_table(PANIC_TABLE_)
     total = sum(len(v) for v in inv.values())
     rep.extra["panic_sites"] = total
     rep.extra["scope_bodies"] = len(scope)
